@@ -265,6 +265,10 @@ Spec == Init /\ [][Next]_vars
 Terminal == phase \in {"done", "failed"}
 NoDeadlock == ~Terminal => ENABLED Next
 
+\* every run ends (no livelock between generators): under weak fairness of the single control token
+FairSpec == Spec /\ WF_vars(Next)
+Terminates == <>Terminal
+
 \* C01: lazy chained execution = step-by-step evaluation on materialised data
 LazyEqualsEager == (phase = "done" /\ exc = <<>>) => out = Eval(steps)
 
